@@ -277,6 +277,7 @@ func runC03(w *World, r *Report) {
 	reportSkipExact(w, r, "C03.skip-decision-order-free")
 
 	// ---- visits-all: every submitted / completed task and every target channel is processed
+	shareRule(w, r, "C03.completions-survive-resume", "what a channel recorded of finished / skipped predecessors is restored whole on resume, on every path of load: a completion that delivered no data (a dependency-only edge, a branch, a skip) is recorded nowhere else", 8, "C05", "C05.channel-state")
 	shareRule(w, r, "C03.ready-needs-data", "a DAG node is ready only when every data predecessor has delivered, whatever its control predecessors: the result must not depend on whether a data-only source finishes before or after the control predecessors", 8, "C02", "C02.ready-guards")
 	shareRule(w, r, "C03.interrupt-waits-all", "a rerun / nested interrupt in an eager run collects every running sibling before the checkpoint is written and the run returns: no node is left executing behind the caller, and the resumed run has every output", 3, "C05", "C05.wait-all-before-save")
 
